@@ -1,6 +1,6 @@
 #!/bin/bash
 # runs every claimed check once (quick tier) and prints its verdict line
-cd /verif
+cd "$(dirname "$0")"
 export RUST_BACKTRACE=0
 for P in $(python3 -c "import json;print(' '.join(c['property_id'] for c in json.load(open('MANIFEST.json'))['checks']))"); do
   s=$(date +%s); out=$(timeout 2400 ./check $P --tier ${1:-quick} 2>&1); rc=$?; e=$(date +%s)
